@@ -249,12 +249,11 @@ class SimulationAlgorithm(BaseSimulationAlgorithm):
                 raise LeaspyAlgoInputError("Dataframe has null value in column TIME")
 
         if self.visit_type == VisitType.RANDOM:
-            if (
-                self.param_study["distance_visit_mean"] <= 0
-                and self.param_study["distance_visit_std"] <= 0
-            ):
+            # a non-positive mean interval never reaches the follow-up age (endless loop
+            # when distance_visit_std > 0); distance_visit_std == 0 stays allowed (regular visits)
+            if self.param_study["distance_visit_mean"] <= 0:
                 raise LeaspyAlgoInputError(
-                    "Distance visit mean (distance_visit_mean) and distance visit std need to be positive"
+                    "Distance visit mean (distance_visit_mean) needs to be positive"
                 )
 
     ## --- SET PARAMETERS ---
